@@ -306,6 +306,8 @@ def a_plant(draw, cx, name, fuel=None):
         a["start_fuel"] = draw(st.sampled_from([0.0, 1.0]))
         _vary_fuel_efficiency(draw, cx, a)
     _partial_costs(draw, cx, a)
+    if draw(st.integers(0, 3)) == 0:
+        a["start"], a["end"] = window(draw, cx, p_none=0.0)      # own window (inside, straddling or outside the horizon)
     return a
 
 
@@ -448,6 +450,8 @@ def a_chp(draw, cx, name):
         a["start_fuel"] = draw(st.sampled_from([0.0, 1.0]))
         _vary_fuel_efficiency(draw, cx, a)
     _partial_costs(draw, cx, a)
+    if draw(st.integers(0, 3)) == 0:
+        a["start"], a["end"] = window(draw, cx, p_none=0.0)      # own window (inside, straddling or outside the horizon)
     return a
 
 
@@ -481,7 +485,7 @@ def periodize(draw, cx, a):
 
 CLASSES_ALL = ["simple", "simple", "contract", "transport", "storage", "storage", "multi", "orderbook",
                "scaled", "structured", "plant", "chp", "coarse", "coarse", "periodic", "periodic",
-               "storage_mip", "orderbook_full"]
+               "storage_mip", "orderbook_full", "chp_minload"]
 
 
 def draw_any(draw, cx, cls, name):
@@ -491,6 +495,13 @@ def draw_any(draw, cx, cls, name):
         return a_structured(draw, cx, name)
     if cls == "chp":
         return a_chp(draw, cx, name)
+    if cls == "chp_minload":
+        a = a_chp(draw, cx, name)
+        if a["type"] == "chp":
+            a["type"] = "chp_minload"
+            a["min_load_threshhold"] = 1.0 / cx.dt0
+            a["min_load_costs"] = draw(st.sampled_from([0.5, 2.0])) / cx.dt0
+        return a
     if cls in ("coarse", "periodic"):
         base = draw(st.sampled_from(["simple", "simple", "storage", "transport", "contract", "multi", "storage_mip"]))
         a = draw_asset(draw, cx, base, name)
@@ -509,7 +520,7 @@ def portfolios_all(draw, classes=None, min_assets=1, max_assets=5, max_nodes=3, 
     classes = classes or CLASSES_ALL
     n = draw(st.integers(min_assets, max_assets))
     chosen = [draw(st.sampled_from(classes)) for _ in range(n)]
-    need_uniform = any(c in ("coarse", "periodic", "plant", "chp") for c in chosen)
+    need_uniform = any(c in ("coarse", "periodic", "plant", "chp", "chp_minload") for c in chosen)
     g = draw(grids(min_T=min_T, max_T=max_T, uniform_only=need_uniform))
     nn = draw(st.integers(1, max_nodes))
     nodes = ["n%d" % i for i in range(nn)]
